@@ -38,6 +38,21 @@ func (l *liveBits) MarshalJSON() ([]byte, error) {
 	return json.Marshal(BitsCase{Off: l.off, Pat: hex.EncodeToString(l.data)})
 }
 
+// liveSweep is the sweep input being executed: (shape, p, v) packed in cur.
+type liveSweep struct {
+	n, off int
+	rnd    []byte
+	cur    atomic.Int64
+}
+
+func (l *liveSweep) set(shape, p int, v byte) { l.cur.Store(int64(shape)<<40 | int64(p)<<8 | int64(v)) }
+
+func (l *liveSweep) MarshalJSON() ([]byte, error) {
+	x := l.cur.Load()
+	data := sweepData(l.n, int(x>>40), int(x>>8&(1<<32-1)), byte(x), l.rnd)
+	return json.Marshal(BitsCase{Off: l.off, Align: 64, Pat: hex.EncodeToString(data)})
+}
+
 type liveNat struct {
 	strs []string
 	i    int
@@ -198,18 +213,180 @@ func TestC20Bits(t *testing.T) {
 	if m, ok := failMsg.Load().(string); ok {
 		t.Fatal(m)
 	}
+	sweepNote := bitsSweep(h, maxLen, tallies, &failMsg)
+	if m, ok := failMsg.Load().(string); ok {
+		t.Fatal(m)
+	}
 	for _, tl := range tallies {
 		h.MergeTally(tl)
 	}
 	h.Exhaustive()
+	h.Note("%s", sweepNote)
 	h.Note("lengths 0..%d x 8 address alignments x {every zero/non-zero pattern (len <= %d); all-zero + every single non-zero byte (all lengths); every pair of non-zero bytes (len <= %d); %d seeded random patterns (longer)}; each with surrounding bytes 0x00 and 0xFF", maxLen, maxExh, maxPairs, nRandom)
+}
+
+// Lengths of the position sweep: around the powers of two at which an
+// implementation may switch to a block loop (the functions of mbits may do so
+// at any length; the property is stated for every length).
+var (
+	sweepLens    = []int{64, 65, 127, 128, 129, 255, 256, 257, 320, 384, 448, 511, 512, 513, 640, 768, 1023, 1024, 1031, 2048, 2049, 4096, 4099}
+	sweepLensTh  = []int{1536, 3001, 8192, 8197, 16384, 16411}
+	sweepBig     = []int{65541}
+	sweepBigTh   = []int{32768, 262144 + 7, 1<<20 + 3}
+	sweepOffs    = []int{0, 1, 2, 3, 4, 5, 6, 7, 8, 9, 10, 11, 12, 13, 14, 15, 31, 32, 33, 63}
+	sweepOffsBig = []int{0, 1, 7, 8, 15, 32, 33, 63}
+	sweepVals    = []byte{0x01, 0x80, 0xFF}
+)
+
+// bitsSweep is the second part of the mbits leg: for each sweep length, each
+// address alignment modulo 64 (all of 0..15 and some above) and both guard
+// values, EVERY position p of a single designated non-zero byte (values 01,
+// 80, FF) with (a) zeros elsewhere, (b) random bytes before p, (c) random
+// bytes after p; plus the all-zero and the all-random buffer.  For the big
+// lengths the positions are the first and last 700, 200 around the middle
+// and 100 seeded ones.
+func bitsSweep(h *vk.H, maxLen int, tallies []*vk.Tally, failMsg *atomic.Value) string {
+	type item struct {
+		n, off int
+		big    bool
+		part   int // big lengths: this quarter of the positions
+	}
+	const parts = 4
+	lens, bigs := append([]int(nil), sweepLens...), append([]int(nil), sweepBig...)
+	if h.Thorough() {
+		lens, bigs = append(lens, sweepLensTh...), append(bigs, sweepBigTh...)
+	}
+	var items []item
+	for _, n := range lens { // cheap ones first: they make the small counterexamples
+		if n < 2048 {
+			for _, off := range sweepOffs {
+				items = append(items, item{n, off, false, 0})
+			}
+		}
+	}
+	for _, n := range bigs {
+		for _, off := range sweepOffsBig {
+			for part := 0; part < parts; part++ {
+				items = append(items, item{n, off, true, part})
+			}
+		}
+	}
+	for i := len(lens) - 1; i >= 0; i-- {
+		for _, off := range sweepOffs {
+			if lens[i] >= 2048 {
+				items = append(items, item{lens[i], off, false, 0})
+			}
+		}
+	}
+	nw := len(tallies)
+	slots := make([]interface {
+		Enter(any)
+		Leave()
+	}, nw)
+	bufs := make([]*bitsBuf, nw)
+	for i := range slots {
+		slots[i], bufs[i] = h.Slot(), &bitsBuf{mod: 64}
+	}
+	vk.Parallel(h, len(items), func(w, k int) {
+		it := items[k]
+		w %= nw
+		tl, n := tallies[w], it.n
+		rng := vk.NewRNG(h.Mix(fmt.Sprintf("bitsweep/%d/%d", n, it.off)))
+		rnd := make([]byte, n)
+		for i := range rnd {
+			if rng.Intn(4) > 0 { // a quarter of the bytes are zero
+				rnd[i] = byte(1 + rng.Intn(255))
+			}
+		}
+		// zero runs of one to three words at both ends and inside
+		for _, at := range []int{0, n - 8 - rng.Intn(17), rng.Intn(n - 24)} {
+			if rng.Intn(2) == 0 {
+				clear(rnd[at:min(n, at+8+rng.Intn(17))])
+			}
+		}
+		var pos []int
+		if it.big {
+			seen := map[int]bool{}
+			add := func(p int) {
+				if p >= 0 && p < n && !seen[p] {
+					seen[p] = true
+					pos = append(pos, p)
+				}
+			}
+			for i := 0; i < 700; i++ {
+				add(i)
+				add(n - 1 - i)
+			}
+			for i := -100; i < 100; i++ {
+				add(n/2 + i)
+			}
+			for i := 0; i < 100; i++ {
+				add(rng.Intn(n))
+			}
+			pos = pos[it.part*len(pos)/parts : (it.part+1)*len(pos)/parts]
+		} else {
+			pos = seqInts(n - 1)
+		}
+		live := &liveSweep{n: n, off: it.off, rnd: rnd}
+		slots[w].Enter(live)
+		defer slots[w].Leave()
+		for _, guard := range []byte{0x00, 0xFF} {
+			sw := newSweeper(bufs[w], n, it.off, guard, rnd)
+			run := func(shape, p int, v byte) bool {
+				live.set(shape, p, v)
+				if fast := sw.step(shape, p, v); fast != "" {
+					c, msg := sw.explain(shape, p, v, fast)
+					path := h.Fail(c, msg)
+					failMsg.Store(fmt.Sprintf("VK-VIOLATION property=C20 leg=mbits replay=%s\n%s", path, msg))
+					return false
+				}
+				if guard == 0 {
+					return true // one evaluation = the input under one or both guard values
+				}
+				if shape == sweepZero && n <= maxLen && it.off%16 >= 8 {
+					return true // the first part of the leg has this (length, address, position)
+				}
+				tl.Evals++
+				tl.Classes[sweepClass[shape]]++
+				if shape == sweepAll || (shape != sweepNone && p >= 8 && p < n-8) {
+					tl.NT++
+				}
+				return true
+			}
+			if it.part == 0 && (!run(sweepNone, 0, 0) || !run(sweepAll, 0, 0)) {
+				return
+			}
+			for _, p := range pos {
+				if guard == 0 && p >= 136 && p < n-136 {
+					// what lies outside the slice matters near its ends; far
+					// from them the input runs with non-zero surroundings only
+					continue
+				}
+				rot := (p + p/8 + p/64) % 3
+				for vi, v := range sweepVals {
+					if vi != rot {
+						if n < 2048 && !run(sweepZero, p, v) {
+							return
+						}
+						continue
+					}
+					if !run(sweepZero, p, v) || !run(sweepBefore, p, v) || !run(sweepAfter, p, v) {
+						return
+					}
+				}
+			}
+		}
+	})
+	return fmt.Sprintf("position sweep: lengths %v x addresses %v mod 64 (guards of 72 bytes, 0x00 and 0xFF): all-zero, all-random, and EVERY position p of one designated non-zero byte (01, 80, FF) with zeros elsewhere / random bytes before p / random bytes after p; lengths %v x addresses %v mod 64: the same for the first and last 700 positions, 200 around the middle and 100 seeded ones (one of the three values per position)",
+		lens, sweepOffs, bigs, sweepOffsBig)
 }
 
 // TestC20BitsValues: the exhaustive leg varies WHERE the non-zero bytes are;
 // this one varies their VALUES so that groups of 8-byte words cancel under
 // addition or exclusive-or (a block test written as "w0+w1+w2+w3 != 0" or
 // "w0^w1 != 0" sees zero where an OR would not), at every alignment, behind
-// zero prefixes of 0..80 bytes.
+// zero prefixes of 0..80 bytes; one case in sixteen is a large buffer (up to
+// 6 KiB) in which the group coincides with a block counted from either end.
 func TestC20BitsValues(t *testing.T) {
 	h := vk.Start(t, "C20", "mbitsval")
 	vk.Rapid(h, t, func(t *rapid.T) BitsCase {
@@ -236,17 +413,29 @@ func TestC20BitsValues(t *testing.T) {
 			k := rapid.IntRange(0, g-1).Draw(t, "rot")
 			ws = append(ws[k:], ws[:k]...)
 		}
-		data := make([]byte, rapid.IntRange(0, 80).Draw(t, "zeroPrefix"), 200)
+		pre, suf := rapid.IntRange(0, 80), rapid.IntRange(0, 40)
+		if vk.Rare(t, "big", 16) {
+			// a large buffer whose group of words coincides with a 16-, 32- or
+			// 64-byte block counted from the start and/or from the end
+			blocks := rapid.Map(rapid.IntRange(0, 48), func(k int) int { return 64 * k })
+			jitter := rapid.OneOf(rapid.Just(0), rapid.SampledFrom([]int{8, 16, 24, 32, 40, 48, 56}), rapid.IntRange(0, 63))
+			pre = rapid.Custom(func(t *rapid.T) int { return blocks.Draw(t, "blocks") + jitter.Draw(t, "jitter") })
+			suf = pre
+		}
+		np := pre.Draw(t, "zeroPrefix")
+		data := make([]byte, np, np+200)
 		for _, w := range ws {
 			data = binary.LittleEndian.AppendUint64(data, w)
 		}
-		for k := rapid.IntRange(0, 40).Draw(t, "zeroSuffix"); k > 0; k-- {
-			data = append(data, 0)
-		}
+		data = append(data, make([]byte, suf.Draw(t, "zeroSuffix"))...)
 		if rapid.IntRange(0, 3).Draw(t, "ragged") == 0 { // a length that is not a multiple of 8
 			data = data[:len(data)-rapid.IntRange(0, min(7, len(data))).Draw(t, "cut")]
 		}
-		return BitsCase{Off: rapid.IntRange(0, 7).Draw(t, "off"), Pat: hex.EncodeToString(data)}
+		c := BitsCase{Off: rapid.IntRange(0, 7).Draw(t, "off"), Pat: hex.EncodeToString(data)}
+		if rapid.Bool().Draw(t, "align64") { // addresses 0..63 modulo 64 (the default layout reaches 8..15 modulo 16 only)
+			c.Align, c.Off = 64, rapid.IntRange(0, 63).Draw(t, "off64")
+		}
+		return c
 	}, runBits)
 }
 
